@@ -4,6 +4,7 @@ import Lemmas.Py.Roundtrip
 import Lemmas.Render.Wf
 import Lemmas.Render.Eval
 import Lemmas.Render.EvalTable
+import Lemmas.Render.EvalTop
 /-!
 # C08 — rendered migration code does exactly what the operation objects do
 
@@ -75,6 +76,61 @@ theorem roundtrip_create_table (ec : ECtx) (o : Op) (h : evalOkT o = true) :
 theorem evalCallT_extends (ec : ECtx) (e : PyAst) (x : Op) (h : evalCall ec e = some x) : evalCallT ec e = some x :=
   evalCallT_of_evalCall ec e x h
 
+/-- **C08.roundtrip for containers** (`ModifyTableOps`, rendered as plain statements or as a
+`with op.batch_alter_table(table, schema=…) as batch_op:` block): for every context, both values of `render_as_batch`
+and every top-level operation whose members satisfy `evalOkT`, evaluating the rendered lines - the header gives the
+table and schema every `batch_op.*` statement of the block is bound to - yields exactly the member operations, in
+order, each normalised with respect to the context it was rendered in (`normTop`). An empty group renders nothing and
+evaluates to no operation. -/
+theorem roundtrip_container (c : Ctx) (asBatch : Bool) (t : Top) (h : ∀ o ∈ topOps t, evalOkT o = true) :
+    evalLines c (renderTop c asBatch t) = some (normTop c asBatch t) := evalLines_renderTop c asBatch t h
+
+/-- **rendering a group = the renderings of its members, in order** (preceded by the header in batch mode) -/
+theorem render_container (c : Ctx) (asBatch : Bool) (table : Str) (schema : Option Str) (o : Op) (os : List Op) :
+    lineAsts (renderTop c asBatch (.modify table schema (o :: os))) =
+      (if asBatch then [batchHeader c table schema] else []) ++ (o :: os).map (renderOp { c with batch := asBatch }) :=
+  lineAsts_renderTop c asBatch table schema o os
+
+/-- **C08.syntax for containers**: every expression of every line rendered for a top-level operation (the
+`op.batch_alter_table(...)` header included) parses back to its normal form; names arbitrary. -/
+theorem syntax_container (c : Ctx) (asBatch : Bool) (t : Top) (hc : ctxOk c = true) (h : ∀ o ∈ topOps t, opOk o = true) :
+    ∀ a ∈ lineAsts (renderTop c asBatch t), parse (pp c.isP a) = some (canon a) := by
+  intro a ha
+  have key : ∀ (b : Bool) (o : Op), o ∈ topOps t → parse (pp c.isP (renderOp { c with batch := b } o)) =
+      some (canon (renderOp { c with batch := b } o)) := fun b o ho =>
+    syntax_full { c with batch := b } o (by simpa [ctxOk] using hc) (h o ho)
+  cases t with
+  | single o =>
+    simp only [renderTop, lineAsts, List.mem_singleton] at ha
+    subst ha
+    exact key false o (by simp [topOps])
+  | modify table schema ops =>
+    cases ops with
+    | nil => simp [renderTop, lineAsts] at ha
+    | cons o os =>
+      rw [render_container] at ha
+      simp only [List.mem_append, List.mem_map] at ha
+      rcases ha with ha | ⟨x, hx, rfl⟩
+      · cases asBatch with
+        | false => simp at ha
+        | true =>
+          simp only [↓reduceIte, List.mem_singleton] at ha
+          subst ha
+          exact parse_pp c.isP _ (wf_batchHeader c hc table schema)
+      · exact key asBatch x (by simpa [topOps] using hx)
+
+/-- **option text is carried verbatim** (what seed C08-m broke): for every string `s` - `%`, quotes, backslashes
+included - an index option rendered as `key=sa.text(s)` under a key that is not one of `create_index`'s own
+parameters comes back from evaluating the rendered call as exactly that option with exactly that string, batch or
+not; together with `Py.repr_roundtrip` the text between the quotes is `s` itself: nothing is interpolated. -/
+theorem option_text_verbatim (ec : ECtx) (name : GenName) (table : Str) (schema : Option Str) (col key s : Str)
+    (hk : kwFresh [S "unique", S "schema", S "if_not_exists"] [(key, PyAst.call (S "sa.text") Layout.inline [pos (.str s)])] = true) :
+    evalCallT ec (renderOp ec.c (.createIndex name table schema [.col col] false
+        [(key, .call (S "sa.text") Layout.inline [pos (.str s)])] none)) =
+      some (normalizeT ec (.createIndex name table schema [.col col] false
+        [(key, .call (S "sa.text") Layout.inline [pos (.str s)])] none)) :=
+  roundtrip_create_table ec _ (by simp [evalOkT, evalOk, hk])
+
 /-- outside batch mode `normalize` only replaces falsy strings by `None` and drops the two shadowed
 `existing_*` attributes: e.g. it is the identity on `drop_column` with a non-empty schema -/
 example (ec : ECtx) (hb : ec.c.batch = false) (t col : Str) (c0 : Char) (s : Str) :
@@ -84,6 +140,19 @@ example (ec : ECtx) (hb : ec.c.batch = false) (t col : Str) (c0 : Char) (s : Str
 /-! ### non-vacuity -/
 
 def ctx0 : Ctx := { batch := false, opPrefix := S "op.", saPrefix := S "sa.", isP := fun _ => true }
+
+/-- containers: a batch group with awkward names evaluates back to its two members, and the hypothesis is satisfiable -/
+example : (∀ o ∈ topOps (.modify (S "it's") (some (S "s\\x")) [.dropColumn (S "it's") (some (S "s\\x")) (S "c\"d"),
+      .dropTableComment (S "it's") none (some (S "s\\x"))]), evalOkT o = true) ∧
+    (evalLines ctx0 (renderTop ctx0 true (.modify (S "it's") (some (S "s\\x")) [.dropColumn (S "it's") (some (S "s\\x")) (S "c\"d"),
+      .dropTableComment (S "it's") none (some (S "s\\x"))]))).map List.length = some 2 := by
+  constructor
+  · intro o ho; simp [topOps] at ho; rcases ho with rfl | rfl <;> rfl
+  · decide +kernel
+
+/-- `sqlite_where=sa.text("name LIKE 'a%'")`: the hypothesis of `option_text_verbatim` holds for the key of seed C08-m -/
+example : kwFresh [S "unique", S "schema", S "if_not_exists"]
+    [(S "sqlite_where", PyAst.call (S "sa.text") Layout.inline [pos (.str (S "name LIKE 'a%'"))])] = true := by decide +kernel
 
 /-- `evalOkT` is satisfiable by a table with awkward names, an `op.f()` primary key name, a foreign key with options
 and a check constraint; and the evaluator really reads the columns back -/
